@@ -4,7 +4,8 @@ cd "$(dirname "$0")" || exit 2
 rc=0
 tmp=$(mktemp -d)
 for f in spec/*.tla; do
-  out=$(cd "$tmp" && java -DTLA-Library=/verif/spec -cp /opt/veriftools/tla/tla2tools.jar:/opt/veriftools/tla/CommunityModules-deps.jar tla2sany.SANY "/verif/$f" 2>&1)
+  here=$(pwd)
+  out=$(cd "$tmp" && java -DTLA-Library="$here/spec" -cp /opt/veriftools/tla/tla2tools.jar:/opt/veriftools/tla/CommunityModules-deps.jar tla2sany.SANY "$here/$f" 2>&1)
   if echo "$out" | grep -q -E 'Parsing or semantic analysis failed|\*\*\* Errors|Fatal errors|Could not'; then echo "SANY failed: $f"; echo "$out" | tail -20; rc=2; fi
 done
 rm -rf "$tmp"
